@@ -253,6 +253,9 @@ def run(chk: Check) -> None:
         "connect attempts are completed by the harness through the resolver's connect_socket hook (the asyncio resolver's is loop.sock_connect)",
         "all addresses of a scenario have one family, so the library's family interleaving keeps the given order",
     ]
+    from . import c19_client
+
+    c19_client.run(chk)
 
 
 def replay(data: dict[str, Any]) -> int:
